@@ -72,7 +72,7 @@ private def showEx {ε : Type} (f : α → String) : Except ε α → String
 /-- the four column getters of the public API at one column -/
 def colGetters (cols : List (Col Float)) (c : Int) : String :=
   s!"{showEx showF (getColumnWidth f64WidthOps cols c)},{showEx showF (getActualColumnWidth f64WidthOps cols c)}," ++
-  s!"{showEx showB (isColumnHidden cols c)},{showEx showOI (getColumnStyle cols c)}"
+  s!"{showEx showB (isColumnHidden cols c)},{showOI (modelGetColumnStyle cols c)}"
 
 /-- the row getters of the public API at one row -/
 def rowGetters (rows : List (Row Float)) (r : Int) : String :=
@@ -95,11 +95,15 @@ def opStatus (s : Sheet Float Float) : Op Float Float → Bool
 
 private def around (t : Int) : List Int := [t - 2, t - 1, t, t + 1, t + 2]
 
+/-- indices that are not an `i32` cannot be asked of the implementation: printed as `X` -/
+private def ifI32 (f : Int → String) (x : Int) : String :=
+  if -2147483648 ≤ x ∧ x ≤ 2147483647 then f x else "X"
+
 def opLocal (s : Sheet Float Float) : Op Float Float → String
   | .setColWidth c _ | .setColHidden c _ | .setColStyle c _ | .delColStyle c =>
-    ";".intercalate ((around c).map (colGetters s.cols))
+    ";".intercalate ((around c).map (ifI32 (colGetters s.cols)))
   | .setRowHeight r _ | .setRowHidden r _ | .setRowStyle r _ | .delRowStyle r =>
-    ";".intercalate ((around r).map (rowGetters s.rows))
+    ";".intercalate ((around r).map (ifI32 (rowGetters s.rows)))
 
 def c29 (args : List String) : String :=
   match args with
